@@ -533,7 +533,7 @@ OPS = {
              ['get', 'CO'], ['get', 'CO2'], ['add', 'CO'], ['add', 'CO2'], ['clear']],
     'ktable': [['path', 'A'], ['path', 'B'], ['interp', 'linear'], ['interp', 'exp'],
                ['get', 'CO'], ['get', 'CO2'], ['add', 'CO'], ['clear']],
-    'cia': [['path', 'A'], ['path', 'B'], ['path', 'M'], ['get', 'H2-He'], ['get', 'H2-H2'], ['add', 'H2-He'],
+    'cia': [['path', 'A'], ['path', 'B'], ['path', 'M'], ['path', 'A-list'], ['get', 'H2-He'], ['get', 'H2-H2'], ['add', 'H2-He'],
             ['add', 'H2-H2']],
 }
 
@@ -595,7 +595,9 @@ def _history(case, which):
             new = None
             try:
                 if k == 'path':
-                    d = w['dirs'][op[1]]
+                    d = w['dirs'][op[1].split('-')[0]]
+                    if op[1].endswith('-list'):
+                        d = [d]            # the same directory configured as a one-element list of search paths
                     if which == 'xsec':
                         cache.set_opacity_path(d)
                     elif which == 'ktable':
@@ -631,7 +633,7 @@ def _history(case, which):
             where = '%s/%s' % (which, k)
 
             if k in ('path', 'interp', 'mem', 'clear'):
-                model.configure(op)
+                model.configure(['path', op[1].split('-')[0]] if k == 'path' else op)
                 if k != 'path':
                     last_cfg = k
                 if raised is not None:
